@@ -161,7 +161,7 @@ func keyIdx(s string) int {
 type ruleMap struct{ m *schema.RuleASTNodes }
 
 func rv(id int) schema.RuleASTNode { return schema.RuleASTNode{Value: "v" + strconv.Itoa(id)} }
-func (c ruleMap) Set(k, id int)     { c.m.Set(c19KeyNames[k], rv(id)) }
+func (c ruleMap) Set(k, id int)    { c.m.Set(c19KeyNames[k], rv(id)) }
 func (c ruleMap) Update(k int, fn func(int) int) {
 	c.m.Update(c19KeyNames[k], func(v schema.RuleASTNode) schema.RuleASTNode { return rv(fn(valID(v.Value))) })
 }
@@ -194,7 +194,7 @@ func (c ruleMap) JSON() ([]byte, error) { return c.m.MarshalJSON() }
 type astMap struct{ m *schema.ASTNodes }
 
 func av(id int) schema.ASTNode { return schema.ASTNode{Value: "v" + strconv.Itoa(id)} }
-func (c astMap) Set(k, id int)  { c.m.Set(c19KeyNames[k], av(id)) }
+func (c astMap) Set(k, id int) { c.m.Set(c19KeyNames[k], av(id)) }
 func (c astMap) Update(k int, fn func(int) int) {
 	c.m.Update(c19KeyNames[k], func(v schema.ASTNode) schema.ASTNode { return av(fn(valID(v.Value))) })
 }
